@@ -20,7 +20,7 @@ Definition env_facts (b : base) (te : Z * ev) : list alarm :=
   | EWDrop _ _ _ _ => [9007]
   | EWClose _ _ => [9009]
   | ECrash _ => [9010]
-  | EEnvMark c _ => [9000 + c]
+  | EEnvMark c _ _ => [9000 + c]
   | _ => []
   end.
 
